@@ -39,6 +39,12 @@ claimed.update({
    text="The simulated kernel keeps an exact ledger of descriptor ownership: any framework call on a closed or foreign number is caught at that step (canaries re-open freed numbers immediately, so use-after-close always lands on a foreign descriptor), and at Run's return every framework-created descriptor must be closed and unix-socket files removed. Found three use-after-close defects (repaired) and one descriptor leak at shutdown (known finding)."),
 })
 
+claimed["C13"] = dict(engine="vqueue", category="exploration", design="DESIGN.md §3 C13",
+   technique="deterministic simulation of concurrent queue operations under a seeded cooperative scheduler (yield before every atomic), recorded histories checked for linearizability with porcupine against a sequential FIFO model",
+   text="2..4 simulated tasks run short Enqueue/Dequeue/Length/IsEmpty scripts on the real lock-free queue with a scheduling point before every atomic load/CAS/add under random, PCT and starvation schedules; each recorded history (invoke/return stamped with a global event counter) is checked with porcupine against a sequential FIFO queue; Length/IsEmpty are checked when no operation overlaps; a final drain must yield every task exactly once. Sampling of interleavings with exact replay, not enumeration.",
+   note="Assumes sequentially consistent atomics and preemption only between atomic operations; histories stay below 20 operations so the linearizability check is instant; porcupine timeouts are counted inconclusive.")
+claimed["C03"]["text"] += " A second engine (vpoll) runs the real netpoll.Poller and queue alone on the simulated kernel with 1..4 producers and small task-batch thresholds, where a consumer parked in epoll_wait with a non-empty queue is reported with its exact schedule; default and poll_opt builds."
+
 not_applicable = {
  "C16": "pure function of a string / a few integers (parseProtoAddr, capacity normalisation, loop-count clamp): no schedule, clock, I/O or fault for a simulator to control; generating strings would be input fuzzing in simulator vocabulary (DESIGN.md §4)",
  "C20": "pure integer arithmetic (power-of-two helpers, size-class index, GFD pack/unpack): exhaustive enumeration or proof is the right tool, not simulation (DESIGN.md §4)",
